@@ -225,6 +225,14 @@ ScaledY(p, c) == [p EXCEPT !.y = [i \in 1..NPts(p) |-> c * p.y[i]]]
 WeightScaleInvariant(p, e) == WellPosed(ScaledW(p, 2)) /\ Optimum(ScaledW(p, 2)) = e.coeff
 YHomogeneous(p, e) == \A a \in 1..NCoef(p.t, p.k) : Optimum(ScaledY(p, -2))[a] = QMul(OfInt(-2), e.coeff[a])
 
+(* the grid law: knots and abscissae multiplied by the same L > 0 describe the same fit (B-splines are  *)
+(* invariant under an affine change of the axis), so every problem has a representative on an integer   *)
+(* grid - whose abscissae may be handed over as integer-typed arrays: the type is a representation       *)
+GridScaled(p, L) == [p EXCEPT !.t = [g \in 1..Len(p.t) |-> L * p.t[g]],
+                              !.x = [i \in 1..NPts(p) |-> QMul(OfInt(L), p.x[i])]]
+GridScaleInvariant(p, e) == WellPosed(GridScaled(p, 6)) /\ Optimum(GridScaled(p, 6)) = e.coeff
+                            /\ \A i \in 1..NPts(p) : IsInt(GridScaled(p, 6).x[i])
+
 (* polynomials: pc = <<a0, a1, ...>> (integers), value by Horner over the rationals *)
 RECURSIVE PolyFrom(_, _, _)
 PolyFrom(pc, m, x) == IF m > Len(pc) THEN Zero ELSE QAdd(OfInt(pc[m]), QMul(x, PolyFrom(pc, m + 1, x)))
@@ -312,6 +320,9 @@ SupportOfData(t, k, x, w) ==
              Cardinality({x[i] : i \in {m \in 1..Len(x) : w[m] > 0 /\ QPosOf(t, k, x[m]) = q}})]]
 
 SupportScaleInvariant(t, k, x, w) == SupportOfData(t, k, x, [i \in 1..Len(w) |-> 5 * w[i]]) = SupportOfData(t, k, x, w)
+
+GridSupportInvariant(t, k, x, w) ==
+   SupportOfData([g \in 1..Len(t) |-> 6 * t[g]], k, [i \in 1..Len(x) |-> QMul(OfInt(6), x[i])], w) = SupportOfData(t, k, x, w)
 
 (* ---------------- the machine ---------------- *)
 (* prob: the support problem (constant during a behaviour); bkmask: good knots; status: result of   *)
